@@ -1131,6 +1131,12 @@ def _bs_check(ctx):
             elif r < 0.88: ops.append("del %s%s" % (var(), c))
             elif r < 0.96: ops.append("hor %d" % rng.randint(0, 1))
             else: ops.append("flush")
+        if rng.random() < 0.3:
+            # a small primary file limit that the first 1-3 records fill EXACTLY (bsdrive computes it from the real record sizes): the adapter
+            # over a store whose write path and flush path have to agree on where a file ends
+            ops = ["put %s" % var() for _ in range(rng.randint(2, 5))] + ops
+            seqs.append("fill=%d ; " % rng.randint(1, 3) + " ; ".join(ops))
+            continue
         seqs.append(" ; ".join(ops))
     parts = C.chunks(seqs, C.NCPU)
     from concurrent.futures import ThreadPoolExecutor
